@@ -368,6 +368,27 @@ theorem runHistory_cls (s : World × Inst) (steps : List Step) :
 
 def Form.plain (f : Form) : Bool := f == .literal || f == .npScalar || f == .ndarray
 
+/-- a value held in a plain form is emitted in a plain form -/
+theorem exportForm_plain (c : Cls) (k : String) (f : Form) (h : f.plain = true) :
+    (exportForm c k f).plain = true := by
+  unfold exportForm
+  split
+  · rfl
+  · split
+    · rfl
+    · exact h
+
+/-- `qnoise_factor` is never emitted as a `tf.Variable` (`.numpy()` in every `get_config`) -/
+theorem exportForm_qnoise_ne_variable (c : Cls) (f : Form) :
+    exportForm c "qnoise_factor" f ≠ .variable := by
+  unfold exportForm
+  cases f <;> decide
+
+theorem exportForm_qnoise_variable (c : Cls) : exportForm c "qnoise_factor" .variable = .npScalar := rfl
+
+theorem plain_ne (f : Form) (h : f.plain = true) : f ≠ .variable ∧ f ≠ .tensor := by
+  cases f <;> simp [Form.plain] at h ⊢
+
 theorem kerasOutcome_ok_iff (forms : List (String × Form)) :
     kerasOutcome forms = .ok ↔ ∀ p ∈ forms, p.2 ≠ .variable ∧ p.2 ≠ .tensor := by
   unfold kerasOutcome
